@@ -222,6 +222,17 @@ pub fn gen_tree(rng: &mut Rng, mode: TreeMode) -> TreeSpec {
             1 if !files.is_empty() => roots = vec![files[rng.below(files.len())].clone()],
             2 if !files.is_empty() => roots.push(files[rng.below(files.len())].clone()),
             3 if dirs.len() > 1 => roots.push(dirs[1 + rng.below(dirs.len() - 1)].clone()), // overlapping
+            5 | 6 => {
+                // a further root that lives on another file system (reached
+                // through the cross-device link), before or after "t"
+                if let Some(x) = nodes.iter().find(|n| n.kind == NodeKind::XdevLink) {
+                    if rng.chance(1, 2) {
+                        roots.push(x.path.clone());
+                    } else {
+                        roots.insert(0, x.path.clone());
+                    }
+                }
+            }
             4 => {
                 // a root that is itself a symlink
                 let links: Vec<&Node> = nodes.iter().filter(|n| matches!(n.kind, NodeKind::Link(_))).collect();
